@@ -1415,3 +1415,161 @@ func c01WarningsAllFiles(c *Ctx) {
 		c.Fail(rule, "anchor", token.NoPos, "the warning loop calling maybeAddSyntaxUnspecified / maybeAddUnusedImport was not found (%d recorder calls at loop top level)", found)
 	}
 }
+
+// c02NamePromisesSort (NAME-PROMISES-SORT): callers rely on a function called …Sorted… for a deterministic order and do
+// not sort again (buf breaking pairs the i-th module of one workspace with the i-th of the other). Every return of such
+// a function that hands back a slice must lie behind a sorting call - sort.*, slices.Sort*, or a module function that
+// sorts - or return the result of one: a fast path that returns its input "because there is nothing to select
+// between" returns it in the caller's (directory, map or registry) order.
+func c02NamePromisesSort(c *Ctx) {
+	const rule = "NAME-PROMISES-SORT"
+	c.Rule(rule, "a function named …Sorted… sorts before every return of a slice", 4)
+	p := c.P
+	for _, pk := range p.ModulePkgs() {
+		if !c02InScope(relPkg(pk.PkgPath)) {
+			continue
+		}
+		info := pk.TypesInfo
+		for _, fr := range p.FuncsOf(pk) {
+			if fr.Decl.Body == nil || !strings.Contains(strings.ToLower(fr.Decl.Name.Name), "sorted") || fr.Decl.Type.Results == nil {
+				continue
+			}
+			if strings.HasSuffix(p.Fset.Position(fr.Decl.Pos()).Filename, "_test.go") {
+				continue
+			}
+			if _, isSlice := info.TypeOf(fr.Decl.Type.Results.List[0].Type).Underlying().(*types.Slice); !isSlice {
+				continue
+			}
+			g := p.CFGOf(fr.Decl.Body, info)
+			var sorts []ast.Node
+			inspectNoFuncLit(fr.Decl.Body, func(n ast.Node) bool {
+				if call, ok := n.(*ast.CallExpr); ok {
+					if fn := Callee(info, call); fn != nil && fn != fr.Obj && callSorts(p, fn, 2) {
+						sorts = append(sorts, call)
+					}
+				}
+				return true
+			})
+			bad := 0
+			nret := 0
+			for _, r := range g.Returns() {
+				if len(r.Results) == 0 || isNilIdent(info, r.Results[0]) {
+					continue
+				}
+				nret++
+				ok := false
+				if call, isCall := ast.Unparen(r.Results[0]).(*ast.CallExpr); isCall {
+					if fn := Callee(info, call); fn != nil && callSorts(p, fn, 2) {
+						ok = true
+					}
+				}
+				for _, s := range sorts {
+					if g.Dominates(s, r) || containsNode(r, s) {
+						ok = true
+					}
+				}
+				if !ok {
+					bad++
+				}
+			}
+			if nret == 0 {
+				continue
+			}
+			c.Ob(rule, relPkg(pk.PkgPath)+"."+declName(fr.Decl), fr.Decl.Pos(), bad == 0, true, "%d slice-returning exits, %d of them not behind a sorting call", nret, bad)
+		}
+	}
+}
+
+// c02WalkOrderSorted (WALK-ORDER-SORTED): the order in which a bucket's Walk reports objects is a property of the
+// backend (directory order on disk, sorted in memory, member order in a union). A helper that collects the walked
+// objects into a slice and returns it unsorted is a *walk-order producer*; whoever iterates over such a slice must
+// have sorted it first, or the output (the order of the files in `buf format -d`'s diff) depends on where the files
+// are stored. Producers are found by what they do (append in a Walk callback, no sorting call, slice returned); for
+// every call of a producer the result may be indexed or ranged over only behind a sorting call that takes it.
+func c02WalkOrderSorted(c *Ctx) {
+	const rule = "WALK-ORDER-SORTED"
+	c.Rule(rule, "a slice collected in bucket walk order is sorted before it is iterated", 2)
+	p := c.P
+	pk := p.Pkg("private/pkg/storage")
+	if pk == nil {
+		c.Fail(rule, "anchor", token.NoPos, "storage not found")
+		return
+	}
+	producers := map[*ssa.Function]bool{}
+	for _, sf := range p.SSAFuncsOf([]*packages.Package{pk}) {
+		if sf.Signature.Results().Len() == 0 {
+			continue
+		}
+		if _, isSlice := sf.Signature.Results().At(0).Type().Underlying().(*types.Slice); !isSlice {
+			continue
+		}
+		walks, sorts := false, false
+		for _, call := range callsDeep(sf) {
+			if call.Call.IsInvoke() && call.Call.Method.Name() == "Walk" {
+				walks = true
+			}
+			if fn := staticCalleeObj(call.Call); fn != nil && callSorts(p, fn, 2) {
+				sorts = true
+			}
+		}
+		if walks && !sorts {
+			producers[sf] = true
+		}
+	}
+	c.Ob(rule, "producers", token.NoPos, true, false, "%d walk-order producers in package storage", len(producers))
+	n := 0
+	for _, sf := range p.SSAFuncsOf(p.ModulePkgs()) {
+		for _, f := range allSSAFuncs(sf) {
+			for _, call := range callsIn(f) {
+				callee := call.Call.StaticCallee()
+				if callee == nil || !producers[callee] || producers[f] {
+					continue
+				}
+				cv, ok := call.Value.(*ssa.Call)
+				if !ok {
+					continue
+				}
+				var res ssa.Value = cv
+				for _, ref := range *cv.Referrers() {
+					if ex, ok := ref.(*ssa.Extract); ok && ex.Index == 0 {
+						res = ex
+					}
+				}
+				n++
+				// sorting calls that take the result
+				var sortCalls []ssa.Instruction
+				for _, c2 := range callsIn(f) {
+					if fn := staticCalleeObj(c2.Call); fn != nil && callSorts(p, fn, 2) {
+						for _, a := range c2.Call.Args {
+							if dependsOnValue(a, res) {
+								sortCalls = append(sortCalls, c2.Instr)
+							}
+						}
+					}
+				}
+				// iterations: element access of the result
+				unsorted := 0
+				iter := 0
+				for _, b := range f.Blocks {
+					for _, ins := range b.Instrs {
+						ia, ok := ins.(*ssa.IndexAddr)
+						if !ok || stripConv(ia.X) != res {
+							continue
+						}
+						iter++
+						dom := false
+						for _, s := range sortCalls {
+							if instrDominates(s, ia) {
+								dom = true
+							}
+						}
+						if !dom {
+							unsorted++
+						}
+					}
+				}
+				c.Ob(rule, fmt.Sprintf("%s/%s#%d", ssaFuncName(f), callee.Name(), n), call.Pos(), unsorted == 0, true, "the result of %s is indexed at %d place(s), %d of them not behind a sort of it", callee.Name(), iter, unsorted)
+			}
+		}
+	}
+}
